@@ -39,7 +39,7 @@ ASSUMPTIONS = [
     "real-valued chi^2 are instantiated from a finite alphabet containing ties, +inf and NaN plus seed-derived values",
     "two FitInfo objects with equal canonical encoding (all fields and all instance attributes) have equal futures",
 ]
-REQUIRED_CLASSES = ['statistics-need-double-precision', 'ranking-of-hundreds-of-fits', 'n>total', 'empty-vector', 'all-inf', 'nan-present', 'tie-straddles-N-cut',
+REQUIRED_CLASSES = ['source-with-no-fitted-point', 'statistics-need-double-precision', 'ranking-of-hundreds-of-fits', 'n>total', 'empty-vector', 'all-inf', 'nan-present', 'tie-straddles-N-cut',
                     'cut-strictly-inside', 'kept-all', 'kept-none', 'model_fluxes-None', 'unsorted-through-sort',
                     'longer-vector', 'flags-changed-on-live-source']
 
@@ -49,6 +49,7 @@ ALPHA = [0.5, 1.5, 3.0, 7.0, INF, NAN]
 THRESH = [0.26, 0.9, 2.2, 4.1, 10.3, 2e30]
 SELECTORS = [('A', 0)] + [('N', n) for n in (0, 1, 2, 3, 5, 7)] + [(f, v) for f in 'CDEF' for v in THRESH]
 FLAGSETS = {1: [1, 0, 2], 2: [1, 4, 3, 9], 3: [1, 1, 4, 0, 2]}
+NODATA_FLAGS = [2, 3, 9, 0]
 
 
 def _enc(chi):
@@ -400,6 +401,11 @@ def run_case(ctx, case, rec, d):
             assert selref.n_data(flags) == nd
             for with_mf in (True, False):
                 _explore(rec, tuple(case['chi']), chi, nd, flags, with_mf, False, do_pairs)
+        if len(chi) <= 4:
+            # a source made of limits and ignored points only: n_data is 0, chi^2/n_data is inf (or NaN for 0/0), which is below no threshold
+            assert selref.n_data(NODATA_FLAGS) == 0
+            _explore(rec, tuple(case['chi']), chi, 0, NODATA_FLAGS, True, False, len(chi) <= 3)
+            rec.cls('source-with-no-fitted-point')
         if len(rec.samples) == 0 and len(chi) >= 3:
             rec.sample({'initial_chi2': case['chi'], 'n_data_variants': FLAGSETS, 'selectors': [list(s) for s in SELECTORS[:9]] + ['...'],
                         'exploration': 'BFS to fixpoint + all selector pairs'})
